@@ -32,6 +32,7 @@ var authItems = []string{
 	"S21-session-of-another-name-resumed", "S20-only-unknown-extended-key-usage", "C15-only-unknown-extended-key-usage",
 	"S22-name-constrained-ca-permits-name(allowed)", "S22-name-constrained-ca-permits-parent-domain(allowed)", "S22-name-constrained-ca-lookalike-suffix", "S22-name-constrained-ca-other-domain", "S22-name-constrained-ca-subdomain-only",
 	"S23-skx-signed-with-encryption-key", "S24-pinned-selfsigned-pair(allowed)", "S24-pinned-pair-other-name", "S24-pinned-pair-not-yet-valid", "S24-pinned-pair-expired",
+	"S25-common-name-matches-san-does-not", "S26-pair-under-expired-ca", "C16-leaf-under-expired-intermediate", "TS25-common-name-matches-san-does-not",
 	"S19-wildcard-one-label(allowed)", "S19-wildcard-deeper-name", "S19-wildcard-parent-name", "TS19-wildcard-one-label(allowed)", "TS19-wildcard-deeper-name", "TS19-wildcard-parent-name",
 	"TS0-honest-server", "TS1-untrusted-root", "TS3-wrong-name", "TS10-rsa-key-not-held", "TS5-ecdhe-params-signed-by-other-key", "TS6-ecdhe-params-signature-over-other-randoms", "TS9-ecdhe-params-signature-garbage", "TS4-ecdsa-cert-for-rsa-suite",
 	"TC0-honest-client", "TC1-no-cert", "TC2-untrusted-ca", "TC3-cv-other-key", "TC4-cv-other-transcript", "TC5-cv-omitted", "TC5-cv-omitted-enc-only-cert", "TC3-cv-other-key-enc-only-cert", "TC12-certificate-message-omitted", "TC8-ifgiven-no-cert",
@@ -92,7 +93,8 @@ func drawImpostor(c *simkit.Choice, ent *simkit.Stream) impRun {
 		items := []string{"S0-honest-server", "S1-untrusted-ca", "S2-expired", "S2-not-yet-valid", "S2-client-clock-before", "S2-client-clock-after", "S2-one-expired", "S3-wrong-name", "S3-one-wrong-name", "S3-ip-literal-server-name",
 			"S4-rsa-sign-cert", "S4-p256-sign-cert", "S4-rsa-enc-cert", "S5-skx-other-key", "S6-skx-replayed-randoms", "S7-skx-other-enc-cert", "S8-skx-omitted", "S9-skx-malformed", "S10-no-enc-key", "S11-certs-swapped", "S12-one-cert", "S13-eku-clientauth-only", "S14-keyusage-sign-cert", "S14-keyusage-enc-cert", "V1-client-callback-rejects", "S15-untrusted-ca-ships-its-root", "S15-extra-unrelated-selfsigned", "S16-dual-usage-sign-cert-enc-key-not-held", "S17-lookalike-of-trusted-root", "S18-leaves-issued-by-v1-end-entity", "S19-wildcard-one-label(allowed)", "S19-wildcard-deeper-name", "S19-wildcard-parent-name", "S21-session-of-another-name-resumed", "S20-only-unknown-extended-key-usage",
 			"S22-name-constrained-ca-permits-name(allowed)", "S22-name-constrained-ca-permits-parent-domain(allowed)", "S22-name-constrained-ca-lookalike-suffix", "S22-name-constrained-ca-other-domain", "S22-name-constrained-ca-subdomain-only",
-			"S23-skx-signed-with-encryption-key", "S24-pinned-selfsigned-pair(allowed)", "S24-pinned-pair-other-name", "S24-pinned-pair-not-yet-valid", "S24-pinned-pair-expired"}
+			"S23-skx-signed-with-encryption-key", "S24-pinned-selfsigned-pair(allowed)", "S24-pinned-pair-other-name", "S24-pinned-pair-not-yet-valid", "S24-pinned-pair-expired",
+			"S25-common-name-matches-san-does-not", "S26-pair-under-expired-ca"}
 		ir.Item = items[c.Choose(len(items), simkit.LFault)]
 		switch ir.Item {
 		case "S0-honest-server":
@@ -214,6 +216,15 @@ func drawImpostor(c *simkit.Choice, ent *simkit.Stream) impRun {
 			if ca == "ncok" || ca == "ncdot" {
 				ir.Expect = expComplete
 			}
+		case "S25-common-name-matches-san-does-not":
+			// CA-issued pair for mallory.sim (subjectAltName) whose common name says server.sim:
+			// where a subjectAltName is present the common name does not count
+			sc.Sign, sc.Enc = ident("srvcnsan-sign", true), ident("srvcnsan-enc", true)
+		case "S26-pair-under-expired-ca":
+			// pair issued by a CA certificate that expired five years ago, which the client
+			// still has in its pool; the pair itself claims to be valid
+			sc.Sign, sc.Enc = ident("srvexpca-sign", true), ident("srvexpca-enc", true)
+			ir.ExtraRoot = "caAexp"
 		case "S23-skx-signed-with-encryption-key":
 			// the impostor presents both genuine certificates and holds the encryption key
 			// only (the key a key-management centre escrows); it signs the ServerKeyExchange
@@ -265,7 +276,7 @@ func drawImpostor(c *simkit.Choice, ent *simkit.Stream) impRun {
 	cc := &reftls.ClientCfg{Rand: ent, Suites: []uint16{ir.Suite}, ServerName: "server.sim"}
 	ir.ccfg = cc
 	ir.Policy = gmtls.RequireAndVerifyClientCert
-	items := []string{"C0-honest-client", "C1-no-cert", "C2-untrusted-ca", "C3-cv-other-key", "C4-cv-other-transcript", "C5-cv-omitted", "C6-selfsigned-allowed", "C7-selfsigned-cv-other-key", "C8-ifgiven-no-cert", "C9-expired", "C9-server-clock-after", "C10-eku-serverauth-only", "V2-server-callback-rejects", "C11-foreign-cert-first-own-cert-second", "C12-certificate-message-omitted", "C13-lookalike-of-trusted-root", "C14-leaf-issued-by-v1-end-entity", "C15-only-unknown-extended-key-usage"}
+	items := []string{"C0-honest-client", "C1-no-cert", "C2-untrusted-ca", "C3-cv-other-key", "C4-cv-other-transcript", "C5-cv-omitted", "C6-selfsigned-allowed", "C7-selfsigned-cv-other-key", "C8-ifgiven-no-cert", "C9-expired", "C9-server-clock-after", "C10-eku-serverauth-only", "V2-server-callback-rejects", "C11-foreign-cert-first-own-cert-second", "C12-certificate-message-omitted", "C13-lookalike-of-trusted-root", "C14-leaf-issued-by-v1-end-entity", "C15-only-unknown-extended-key-usage", "C16-leaf-under-expired-intermediate"}
 	ir.Item = items[c.Choose(len(items), simkit.LFault)]
 	verifying := []gmtls.ClientAuthType{gmtls.RequireAndVerifyClientCert, gmtls.VerifyClientCertIfGiven}
 	lax := []gmtls.ClientAuthType{gmtls.RequireAnyClientCert, gmtls.RequestClientCert}
@@ -328,6 +339,11 @@ func drawImpostor(c *simkit.Choice, ent *simkit.Stream) impRun {
 	case "C14-leaf-issued-by-v1-end-entity":
 		cc.Cert = &reftls.Identity{Chain: [][]byte{pki.DER("forged-cli"), pki.DER("v1ee")}, Key: pki.D("forged-cli")}
 		ir.Policy = verifying[c.Choose(2, simkit.LFault)]
+	case "C16-leaf-under-expired-intermediate":
+		// the intermediate that issued the leaf expired five years ago (whoever holds its
+		// key can mint back-dated leaves); the leaf itself claims to be valid
+		cc.Cert = &reftls.Identity{Chain: [][]byte{pki.DER("cliexpca"), pki.DER("caAexp")}, Key: pki.D("cliexpca")}
+		ir.Policy = verifying[c.Choose(2, simkit.LFault)]
 	case "V2-server-callback-rejects":
 		cc.Cert = ident("cli", true)
 		ir.Policy = []gmtls.ClientAuthType{gmtls.RequireAndVerifyClientCert, gmtls.VerifyClientCertIfGiven, gmtls.RequireAnyClientCert, gmtls.RequestClientCert}[c.Choose(4, simkit.LFault)]
@@ -356,7 +372,7 @@ func drawImpostorTLS(c *simkit.Choice, ent *simkit.Stream, ir *impRun) {
 	if !ir.VictimSrv {
 		sc := &reftls.ServerCfg{Rand: ent, Suites: []uint16{ir.Suite}, TLS12: true, Sign: rsaID("tlsrsa", true)}
 		ir.scfg = sc
-		items := []string{"TS0-honest-server", "TS1-untrusted-root", "TS3-wrong-name", "TS10-rsa-key-not-held", "TS4-ecdsa-cert-for-rsa-suite", "TS7-leaf-issued-by-v1-end-entity", "TS19-wildcard-one-label(allowed)", "TS19-wildcard-deeper-name", "TS19-wildcard-parent-name"}
+		items := []string{"TS0-honest-server", "TS1-untrusted-root", "TS3-wrong-name", "TS10-rsa-key-not-held", "TS4-ecdsa-cert-for-rsa-suite", "TS7-leaf-issued-by-v1-end-entity", "TS19-wildcard-one-label(allowed)", "TS19-wildcard-deeper-name", "TS19-wildcard-parent-name", "TS25-common-name-matches-san-does-not"}
 		if ecdhe {
 			items = []string{"TS0-honest-server", "TS1-untrusted-root", "TS3-wrong-name", "TS5-ecdhe-params-signed-by-other-key", "TS6-ecdhe-params-signature-over-other-randoms", "TS9-ecdhe-params-signature-garbage", "TS7-leaf-issued-by-v1-end-entity"}
 		}
@@ -377,6 +393,8 @@ func drawImpostorTLS(c *simkit.Choice, ent *simkit.Stream, ir *impRun) {
 			}
 		case "TS7-leaf-issued-by-v1-end-entity":
 			sc.Sign = &reftls.Identity{Chain: [][]byte{pki.DER("forgedrsa-srv"), pki.DER("v1eersa")}, RSA: refRSA("forgedrsa-srv")}
+		case "TS25-common-name-matches-san-does-not":
+			sc.Sign = rsaID("tlscnsan", true)
 		case "TS1-untrusted-root":
 			ir.VictimRoots = "caA"
 		case "TS3-wrong-name":
